@@ -210,6 +210,42 @@ fn local_case<B: Backend>(cx: &mut Ctx, rng: &mut Prng, thorough: bool) {
             }
         }
     }
+    typed_footer_reference::<B>(cx, rng, fam, &keyb, &m, &i);
+}
+
+/// A conforming token whose footer bytes are not what the receiver's typed footer would write itself (insignificant trailing spaces
+/// for the harness' NormFooter, as whitespace is for a JSON footer): the WIRE bytes are what is authenticated, so it is accepted.
+fn typed_footer_reference<B: Backend>(cx: &mut Ctx, rng: &mut Prng, fam: Fam, keyb: &[u8], m: &[u8], i: &[u8]) {
+    let c = cx.case;
+    let Ok(key) = key_from_bytes::<B::V, Local>(keyb) else { return };
+    let mut f = rng.bytes(6);
+    for b in f.iter_mut() {
+        if *b == b' ' {
+            *b = b'x';
+        }
+    }
+    f.extend_from_slice(b"   ");
+    let mut inp: Inputs = HashMap::new();
+    inp.insert("key".into(), keyb.to_vec());
+    inp.insert("m".into(), m.to_vec());
+    inp.insert("f".into(), f.clone());
+    inp.insert("i".into(), i.to_vec());
+    inp.insert("nonce".into(), rng.bytes(if B::VER == 2 { 24 } else { 32 }));
+    // the term was generated for this case's footer length; only cases whose footer length is the one used here are evaluated
+    if c["flen"].as_u64() != Some(f.len() as u64) {
+        return;
+    }
+    if let Ok(p) = ev(fam, &c["payload_from_nonce"], &inp) {
+        let text = dt::token_string::<B, Local>(&p, &f);
+        let r = catch_unwind(AssertUnwindSafe(|| {
+            SealedToken::<B::V, Local, Raw, crate::payload::NormFooter>::from_str(&text).and_then(|t| t.unseal(&key, i, &NoValidation::dangerous_no_validation()))
+        }));
+        match r {
+            Ok(Ok(u)) => cx.emit("reference", "accepted-same", u.claims.0 == m, json!({"accepted": true, "footer": "typed, wire bytes not canonical for the type"})),
+            Ok(Err(e)) => cx.emit("reference", "accepted-same", false, json!({"accepted": false, "footer": "typed, wire bytes not canonical for the type", "real_error": errname(&e)})),
+            Err(_) => cx.emit("reference", "accepted-same", false, json!({"panic": true})),
+        }
+    }
 }
 
 /// v3.local with the derived counter block substituted through the verification hook (both backends)
